@@ -12,7 +12,17 @@ import (
 func main() {
 	level := flag.Int("level", 1, "universe level")
 	out := flag.String("out", "", "output .tl file")
+	universe := flag.String("universe", "", "\"\" = uni.Universe(level); \"reg\" = uni.UniverseReg() (registry/function universe)")
 	flag.Parse()
+	if *universe == "reg" {
+		ru := uni.UniverseReg()
+		if err := os.WriteFile(*out, []byte(ru.Text()), 0o644); err != nil {
+			fmt.Fprintln(os.Stderr, err)
+			os.Exit(2)
+		}
+		fmt.Printf("registry universe: %d declarations, %d expected registry items\n", len(ru.S.Structs), len(ru.Items))
+		return
+	}
 	s, _ := uni.Universe(*level)
 	if err := os.WriteFile(*out, []byte(s.Text()), 0o644); err != nil {
 		fmt.Fprintln(os.Stderr, err)
